@@ -423,9 +423,11 @@ public:
 	{
 		if (length() != b.length())
 			return false;
-		Enumerator e1(this->all()), e2(b.all());
-		for (; e1; ++e1, ++e2)
-			if (~e1 != ~e2 || *e1 != *e2) return false;
+		for (Enumerator e(this->all()); e; ++e)
+		{
+			const T* v = b.find(~e); // enumeration order depends on insertion order and table size
+			if (!v || *v != *e) return false;
+		}
 		return true;
 	}
 
